@@ -289,6 +289,12 @@ def _execute_vfs(case, glyphs):
     for a in list(BIT_ATTRS) + list(MORE_NUM) + list(MORE_STR):
         base_info.pop(a, None)
     base_info.setdefault("styleName", "Regular")
+    # explicit name records in other languages / on the Macintosh platform: they sit next to the English records the compiler
+    # builds, for the same name IDs
+    extra_recs = [{"nameID": 1, "platformID": 3, "encodingID": 1, "languageID": 0x407, "string": "Pr\u00fcfschrift"},
+                  {"nameID": 9, "platformID": 3, "encodingID": 1, "languageID": 0x407, "string": "Entwerferin"},
+                  {"nameID": 4, "platformID": 1, "encodingID": 0, "languageID": 0, "string": "Mac Full Name"}]
+    base_info["openTypeNameRecords"] = [dict(r) for r in extra_recs]
     bold_info = dict(base_info)
     # the second master sets a few attributes of its own (numbers shifted, names replaced)
     bold_info["styleName"] = "Bold" if base_info["styleName"] != "Bold" else "Heavy"
@@ -348,6 +354,8 @@ def _execute_vfs(case, glyphs):
             if nr.platformID == 3 and nr.langID == 0x409 and nr.nameID < 256:
                 names[str(nr.nameID)] = _cps(nr.toUnicode())
         rec["ret"] = {"num": num, "names": names, "reloaded": True}
+        rec["expNameRecs"] = [[r["nameID"], r["platformID"], r["encodingID"], r["languageID"], _cps(r["string"])] for r in extra_recs]
+        rec["ret"]["nameRecs"] = [[nr.nameID, nr.platformID, nr.platEncID, nr.langID, _cps(nr.toUnicode())] for nr in f2["name"].names]
         recs.append(rec)
     return recs
 
